@@ -85,3 +85,31 @@ package tools
 //@ ghostset raftio.gDataMutated := true
 //@ extern github.com/lni/dragonboat/v4/config (c *NodeHostConfig) Prepare
 //@ extern github.com/lni/dragonboat/v4/internal/fileutil Exist
+
+// ---------------------------------------------------------------- copying the snapshot files durably (C16 C20)
+// the COPY is what must be fsynced before its directory entry is: gCreated is the handle of the
+// file created by the copy, gCopySynced says it was fsynced after the last write to it
+//@ ghost var gOpened int
+//@ ghost var gCreated int
+//@ ghost var gCopySynced bool
+//@ extern github.com/lni/vfs (fs FS) Open
+//@ ghostset gOpened := obj(result0)
+//@ extern github.com/lni/vfs (fs FS) Create
+//@ ensures result1 == nil ==> obj(result0) != gOpened && result0 != nil
+//@ ghostset gCreated := obj(result0)
+//@ ghostset gCopySynced := false
+//@ extern io Copy
+//@ ghostset gCopySynced := false
+//@ extern github.com/lni/vfs (f File) Sync
+//@ ghostset gCopySynced := old(gCopySynced) || (result == nil && obj(f) == gCreated)
+//@ extern github.com/lni/vfs (f File) Close
+//@ extern github.com/lni/vfs (f File) Stat
+//@ extern github.com/lni/vfs (fs FS) PathDir
+//@ extern os (f *File) Chmod
+//@ extern io/fs (f FileInfo) Mode
+
+//@ func copyFile [C16 C20]
+//@ noframe
+//@ nobounds
+//@ modifies gOpened, gCreated, gCopySynced
+//@ ensures err == nil ==> gCopySynced
